@@ -6,7 +6,10 @@
 (* An iteration is a sequence of phases; every phase starts with a sync:   *)
 (* list the bucket, then for every block (concurrently, any order) check   *)
 (* meta.json exists, read meta.json, read deletion-mark.json, read         *)
-(* no-compact-mark.json.  A failed read makes the fetcher report an        *)
+(* no-compact-mark.json; every object read is a Get call followed by       *)
+(* reading the body from the returned reader, and EITHER step may fail     *)
+(* (fault kinds exists, meta, delmark, nocompact, list and meta_body,      *)
+(* delmark_body, nocompact_body).  A failed read makes the fetcher report an *)
 (* incomplete view (the other reads still drain), SyncMetas returns the    *)
 (* error and the iteration is abandoned.  After a complete sync the phase  *)
 (* mutates the bucket (clean marked blocks, garbage-collect, compact,      *)
@@ -15,54 +18,72 @@
 (***************************************************************************)
 EXTENDS BlockLifecycle, TLC, Json, IOUtils, SequencesExt
 CONSTANTS NBlocks, MaxPhases, MaxIters, MaxMuts, MaxFaults,
-          CaseJ      \* leg B: the j-th sync read of a kind fails, j in 1..CaseJ
+          CaseJ,     \* leg B: the j-th sync read (call) of a kind fails, j in 1..CaseJ
+          CaseBodyJ  \* leg B: the body of the j-th Get of a kind fails, j in 1..CaseBodyJ
 
+(* A sync runs in three stages (BaseFetcher.fetchMetadata, then the filters in order); inside a stage the   *)
+(* blocks are handled concurrently (any order), the reads of one block in sequence.  Reading an object is    *)
+(* two steps: the Get call, and - when it succeeded - reading the BODY from the returned reader; either may  *)
+(* fail.  A failed step ends the chain of that block in that stage.                                          *)
+Chain(stage) == CASE stage = 1 -> <<"exists", "meta", "meta_body">>
+                  [] stage = 2 -> <<"delmark", "delmark_body">>
+                  [] stage = 3 -> <<"nocompact", "nocompact_body">>
 Kinds == {"exists", "meta", "delmark", "nocompact"}
-AllReads == { <<b, k>> : b \in 1..NBlocks, k \in Kinds }
+BodyKinds == {"meta_body", "delmark_body", "nocompact_body"}
+Blocks == 1..NBlocks
 
 VARIABLES pc,        \* "idle" | "list" | "reads" | "act"
-          todo,      \* reads of the running sync not yet done
+          stage,     \* 1..3 while pc = "reads"
+          prog,      \* block -> number of steps of the current stage's chain already done
           errs,      \* the running sync saw a failed read
           iter, phase, muts, faults,
           dirty, bad \* property-level history (C33_DirtyAfter / C33_Forbidden)
-vars == <<pc, todo, errs, iter, phase, muts, faults, dirty, bad>>
+vars == <<pc, stage, prog, errs, iter, phase, muts, faults, dirty, bad>>
 
-Init == pc = "idle" /\ todo = {} /\ errs = FALSE /\ iter = 0 /\ phase = 0 /\ muts = 0 /\ faults = 0 /\ dirty = FALSE /\ bad = FALSE
+Zero == [b \in Blocks |-> 0]
+Init == pc = "idle" /\ stage = 1 /\ prog = Zero /\ errs = FALSE /\ iter = 0 /\ phase = 0 /\ muts = 0 /\ faults = 0 /\ dirty = FALSE /\ bad = FALSE
 
 Ev(e) == /\ bad' = (bad \/ C33_Forbidden(dirty, e))
          /\ dirty' = C33_DirtyAfter(dirty, e)
 
 BeginIter == /\ pc = "idle" /\ iter < MaxIters
-             /\ iter' = iter + 1 /\ phase' = 1 /\ pc' = "list" /\ errs' = FALSE /\ todo' = {}
+             /\ iter' = iter + 1 /\ phase' = 1 /\ pc' = "list" /\ errs' = FALSE /\ stage' = 1 /\ prog' = Zero
              /\ Ev([ev |-> "Iter"]) /\ UNCHANGED <<muts, faults>>
-(* the sync begins with the listing *)
+(* the sync begins with the listing; a failed listing ends the sync at once *)
 List == /\ pc = "list"
-        /\ \/ /\ todo' = AllReads /\ errs' = FALSE /\ UNCHANGED <<faults>>
+        /\ \/ /\ errs' = FALSE /\ stage' = 1 /\ prog' = Zero /\ UNCHANGED <<faults>>
               /\ bad' = (bad \/ C33_Forbidden(dirty, [ev |-> "SyncBegin"])) /\ dirty' = FALSE
-           \/ /\ faults < MaxFaults /\ faults' = faults + 1 /\ errs' = TRUE /\ todo' = {}      \* the listing itself fails
+           \/ /\ faults < MaxFaults /\ faults' = faults + 1 /\ errs' = TRUE
+              /\ stage' = 3 /\ prog' = [b \in Blocks |-> Len(Chain(3))]
               /\ bad' = bad /\ dirty' = TRUE                                              \* SyncBegin, then ReadFail(insync)
         /\ pc' = "reads" /\ UNCHANGED <<iter, phase, muts>>
-Read == /\ pc = "reads" /\ todo # {}
-        /\ \E r \in todo :
-             /\ todo' = todo \ {r}
-             /\ \/ UNCHANGED <<errs, faults>> /\ Ev([ev |-> "ReadOK"])
+(* one step (a Get / Exists call, or reading the body of a successful Get) of one block in the current stage *)
+Read == /\ pc = "reads"
+        /\ \E b \in Blocks :
+             /\ prog[b] < Len(Chain(stage))
+             /\ \/ /\ prog' = [prog EXCEPT ![b] = @ + 1] /\ UNCHANGED <<errs, faults>> /\ Ev([ev |-> "ReadOK"])
                 \/ /\ faults < MaxFaults /\ faults' = faults + 1 /\ errs' = TRUE
-                   /\ Ev([ev |-> "ReadFail", insync |-> TRUE])
-        /\ UNCHANGED <<pc, iter, phase, muts>>
+                   /\ prog' = [prog EXCEPT ![b] = Len(Chain(stage))]
+                   /\ Ev([ev |-> "ReadFail", insync |-> TRUE, kind |-> Chain(stage)[prog[b] + 1]])
+        /\ UNCHANGED <<pc, stage, iter, phase, muts>>
+StageDone == \A b \in Blocks : prog[b] = Len(Chain(stage))
+NextStage == /\ pc = "reads" /\ StageDone /\ stage < 3
+             /\ stage' = stage + 1 /\ prog' = Zero
+             /\ UNCHANGED <<pc, errs, iter, phase, muts, faults, dirty, bad>>
 (* SyncMetas returns: error => the iteration is abandoned *)
-SyncEnd == /\ pc = "reads" /\ todo = {}
+SyncEnd == /\ pc = "reads" /\ StageDone /\ stage = 3
            /\ pc' = IF errs THEN "idle" ELSE "act"
-           /\ Ev([ev |-> "SyncEnd"]) /\ UNCHANGED <<todo, errs, iter, phase, muts, faults>>
+           /\ Ev([ev |-> "SyncEnd"]) /\ UNCHANGED <<stage, prog, errs, iter, phase, muts, faults>>
 Mutate == /\ pc = "act" /\ muts < MaxMuts
           /\ muts' = muts + 1
-          /\ Ev([ev |-> "Mut", ok |-> TRUE]) /\ UNCHANGED <<pc, todo, errs, iter, phase, faults>>
+          /\ Ev([ev |-> "Mut", ok |-> TRUE]) /\ UNCHANGED <<pc, stage, prog, errs, iter, phase, faults>>
 NextPhase == /\ pc = "act"
              /\ IF phase < MaxPhases THEN phase' = phase + 1 /\ pc' = "list" ELSE phase' = phase /\ pc' = "idle"
-             /\ Ev([ev |-> "PhaseEnd"]) /\ UNCHANGED <<todo, errs, iter, muts, faults>>
+             /\ Ev([ev |-> "PhaseEnd"]) /\ UNCHANGED <<stage, prog, errs, iter, muts, faults>>
 EndIter == /\ pc = "act" /\ pc' = "idle"
-           /\ Ev([ev |-> "IterEnd"]) /\ UNCHANGED <<todo, errs, iter, phase, muts, faults>>
+           /\ Ev([ev |-> "IterEnd"]) /\ UNCHANGED <<stage, prog, errs, iter, phase, muts, faults>>
 
-Next == BeginIter \/ List \/ Read \/ SyncEnd \/ Mutate \/ NextPhase \/ EndIter
+Next == BeginIter \/ List \/ Read \/ NextStage \/ SyncEnd \/ Mutate \/ NextPhase \/ EndIter
 Spec == Init /\ [][Next]_vars
 
 (* ---- C33 ---- *)
@@ -72,11 +93,12 @@ ActMeansCleanSync == pc = "act" => ~dirty
 (* non-vacuity: mutations do happen *)
 SomeMutation == muts = 0        \* expected to be VIOLATED when checked on its own (see notes); not in the cfg
 
-View == <<pc, todo, errs, iter, phase, muts, faults, dirty, bad>>
 
 (* ---- leg B ---- *)
 CasesFile == IF "VERIF_CASES" \in DOMAIN IOEnv THEN IOEnv.VERIF_CASES ELSE "cases.ndjson"
-CaseSet == { [lister |-> ls, kind |-> k, j |-> j] : ls \in {"concurrent", "recursive"}, k \in Kinds \cup {"list"}, j \in 1..CaseJ }
+CaseSet == { [lister |-> ls, kind |-> k, j |-> j, pos |-> "none"] : ls \in {"concurrent", "recursive"}, k \in Kinds \cup {"list"}, j \in 1..CaseJ }
+           \cup { [lister |-> ls, kind |-> k, j |-> j, pos |-> p] : ls \in {"concurrent", "recursive"}, k \in BodyKinds, j \in 1..CaseJ, p \in {"zero", "mid", "last"} }
 CaseOK(c) == (c.kind = "exists" => c.lister = "concurrent") /\ (c.kind = "list" => c.j <= 6)
+             /\ (c.kind \in BodyKinds => c.j <= (IF c.lister = "recursive" THEN CaseBodyJ \div 3 ELSE CaseBodyJ))   \* the body paths do not depend on the lister
 ASSUME ndJsonSerialize(CasesFile, SetToSeq({ c \in CaseSet : CaseOK(c) }))
 =============================================================================
